@@ -152,7 +152,7 @@ def cases(tier, rng):
                 yield f"{op}{j}:{text}", {"kind": "nearmiss", "base": text, "toks": m, "at": j}, True
         # directed near-misses at the block structure: the separator of the other block kind, and a block directly inside
         # a block of its own kind (sequential and parallel blocks alternate)
-        for tok, repl in (("|", [";"]), ("{", ["{", "{", "}"]), ("<", ["<", "<", ">"])):
+        for tok, repl in (("|", [";"]), ("{", ["{", "{", "}", ";"]), ("<", ["<", "<", ">", "|"]), ("{", ["{", "{", "X", "q", "[", "0", "]", "}", "\n"])):
             where = [j for j, t in enumerate(toks) if t == tok]
             rng.shuffle(where)
             for j in where[:3]:
